@@ -33,7 +33,7 @@ func init() {
 			return 208
 		},
 		Batches: func(t string) int { return 16 },
-		Rule: "each case = 2 wallets (PRNG keys) and 2 session secrets taken from two real ECDH set-ups (secureKey.setup/hkdf): (a) the full matrix signer x signed-secret x claimed-public-key(compressed/uncompressed) x verified-secret through Authenticator.Signature/VerifySignature; (b) ~70 mutations of one valid tuple: single-bit flips in signature and public key, wrong lengths, garbage/hybrid/negated keys, 64-byte and high-s signature forms, altered secrets; every result is compared with an independent decision (decred key parsing + Go crypto/ecdsa.Verify over SHA3-256(secret)); (c) 4 real handshakes: a real listening Authenticator against a scripted dialer and a real dialing Authenticator against a scripted listener, each once honest and once with one attack (signature replayed from the previous real session, other key, bit flip, foreign public key, signature over a traffic key, error field) over suite none or ecdhe. Non-trivial = distinct rejected tuple (reference says invalid) or distinct handshake attack.",
+		Rule:    "each case = 2 wallets (PRNG keys) and 2 session secrets taken from two real ECDH set-ups (secureKey.setup/hkdf): (a) the full matrix signer x signed-secret x claimed-public-key(compressed/uncompressed) x verified-secret through Authenticator.Signature/VerifySignature; (b) ~70 mutations of one valid tuple: single-bit flips in signature and public key, wrong lengths, garbage/hybrid/negated keys, 64-byte and high-s signature forms, altered secrets; every result is compared with an independent decision (decred key parsing + Go crypto/ecdsa.Verify over SHA3-256(secret)); (c) 4 real handshakes: a real listening Authenticator against a scripted dialer and a real dialing Authenticator against a scripted listener, each once honest and once with one attack (signature replayed from the previous real session, other key, bit flip, foreign public key, signature over a traffic key, error field) over suite none or ecdhe. Non-trivial = distinct rejected tuple (reference says invalid) or distinct handshake attack.",
 		MinNonTrivial: func(t string) int {
 			if t == ev.Thorough {
 				return 500000
@@ -51,9 +51,9 @@ func init() {
 		},
 		TimeoutSec: func(t string) int {
 			if t == ev.Thorough {
-				return 3000
+				return 6000
 			}
-			return 400
+			return 600
 		},
 		Run: run,
 	})
@@ -263,9 +263,9 @@ func run(c *ev.Ctx) {
 		// ---- (b) mutations of the valid tuple (key 1, secret 1)
 		good := sigs[0][0]
 		type mut struct {
-			class           string
+			class            string
 			pub, sig, secret []byte
-			honestForm      bool
+			honestForm       bool
 		}
 		var muts []mut
 		flip := func(b []byte, bit int) []byte {
